@@ -22,7 +22,7 @@ pub enum Expectation {
     /// if it deserializes, the re-serialised `__typename` at path equals tag
     IfOkTagAt { path: Vec<PathSeg>, tag: String },
     /// enum vector: Ok({"ser": s, "dbg": ..})
-    EnumRoundTrip { s: String },
+    EnumRoundTrip { s: String, is_schema_value: bool },
     Any,
 }
 
@@ -103,8 +103,18 @@ pub fn evaluate(e: &Expectation, r: &VecResult) -> Option<String> {
             VecResult::Err(_) => None,
             other => Some(show(other)),
         },
-        Expectation::EnumRoundTrip { s } => match r {
-            VecResult::Ok(v) if v["ser"] == Value::String(s.clone()) => None,
+        Expectation::EnumRoundTrip { s, is_schema_value } => match r {
+            VecResult::Ok(v) if v["ser"] == Value::String(s.clone()) => {
+                let dbg = v["dbg"].as_str().unwrap_or("");
+                let other = format!("Other({:?})", s);
+                if *is_schema_value && dbg.starts_with("Other(") {
+                    Some(format!("schema value {:?} deserialised to {}", s, dbg))
+                } else if !*is_schema_value && dbg != other {
+                    Some(format!("non-schema string {:?} deserialised to {} instead of {}", s, dbg, other))
+                } else {
+                    None
+                }
+            }
             other => Some(format!("expected enum round trip of {:?}, observed {}", s, show(other))),
         },
     }
